@@ -629,6 +629,15 @@ fn flush_worker_shards(
         #[cfg(feoxdb_verif)]
         crate::verif::yield_point("wb.after_drain");
 
+        // Every record this drain is going to look at, across all journal-sized batches. A
+        // record that was superseded before it was written may only be skipped (coalesced)
+        // when its replacement is handled by this drain as well.
+        let drained_records: std::collections::HashSet<*const Record> = entries
+            .iter()
+            .filter(|entry| matches!(entry.op, Operation::Insert | Operation::Update))
+            .map(|entry| Arc::as_ptr(&entry.record))
+            .collect();
+
         let mut entries = entries.into_iter();
         let mut shard_retries = Vec::new();
         let mut shard_failed = false;
@@ -642,7 +651,8 @@ fn flush_worker_shards(
                 break;
             }
 
-            let BatchOutcome { result, retries } = process_write_batch(ctx, batch, format);
+            let BatchOutcome { result, retries } =
+                process_write_batch(ctx, batch, &drained_records, format);
             shard_retries.extend(retries);
 
             if let Err(error) = result {
@@ -894,6 +904,7 @@ fn format_extent_size(entry: &WriteEntry, format: &dyn RecordFormat) -> usize {
 fn process_write_batch(
     ctx: &WorkerContext,
     entries: Vec<WriteEntry>,
+    drained_records: &std::collections::HashSet<*const Record>,
     format: &dyn RecordFormat,
 ) -> BatchOutcome {
     let disk_io = &ctx.disk_io;
@@ -908,14 +919,6 @@ fn process_write_batch(
     let mut retry_entries = Vec::new();
     let mut first_error = None;
 
-    // Records this batch is going to look at. A record that was superseded before it was
-    // written may only be skipped (coalesced) when its replacement is handled here as well.
-    let batch_records: std::collections::HashSet<*const Record> = entries
-        .iter()
-        .filter(|entry| matches!(entry.op, Operation::Insert | Operation::Update))
-        .map(|entry| Arc::as_ptr(&entry.record))
-        .collect();
-
     for entry in entries {
         match entry.op {
             Operation::Insert | Operation::Update => {
@@ -923,7 +926,7 @@ fn process_write_batch(
                 if entry.record.sector.load(Ordering::Acquire) == 0
                     && (entry.record.refcount.load(Ordering::Acquire) > 0
                         || sector.is_some()
-                        || replacement_is_buffered_elsewhere(&entry.record, &batch_records))
+                        || replacement_is_buffered_elsewhere(&entry.record, drained_records))
                 {
                     match prepare_record_data(&entry.record, format, disk_io) {
                         Ok(data) => {
@@ -1186,20 +1189,19 @@ fn process_write_batch(
 }
 
 /// True for a record that was replaced before it was written and whose replacement is
-/// neither part of this batch nor durable yet - its buffer entry has not arrived, or it
-/// sits in a later batch. Dropping such a record would let a flush complete (and be
+/// neither part of this drain nor durable yet - its buffer entry has not arrived yet. Dropping such a record would let a flush complete (and be
 /// acknowledged) without any generation at or after it on the device, and a key that is
 /// overwritten faster than the flusher runs would never reach the device at all; it is
 /// written like a live record instead and retired once a successor is durable.
 fn replacement_is_buffered_elsewhere(
     record: &Record,
-    batch_records: &std::collections::HashSet<*const Record>,
+    drained_records: &std::collections::HashSet<*const Record>,
 ) -> bool {
     match record.successor() {
         // deleted or expired: there is nothing newer to wait for and nothing to preserve
         None => false,
-        // the replacement is decided in this very batch
-        Some(next) if batch_records.contains(&Arc::as_ptr(next)) => false,
+        // the replacement is decided by this very drain
+        Some(next) if drained_records.contains(&Arc::as_ptr(next)) => false,
         // otherwise only a durable (or deleted) later generation makes this one redundant
         Some(_) => !record.successor_is_durable_or_deleted(),
     }
